@@ -481,6 +481,73 @@ fn prefix_long(run: &Run, total: &mut Ctx) {
     }));
 }
 
+/// window-only dependence on long structured series (DESIGN 5.14): the output at position i, computed on the
+/// whole series, against the output of the same call on the window x[i-w+1..=i] alone; exact for extrema,
+/// arg-extrema and rank, within rounding for the rest. Windows of 16..=20 and more; the pre-window history is
+/// whatever the shape provides (long null runs, expiring extremes, plateaus).
+fn window_only_long(run: &Run, total: &mut Ctx) {
+    let fam = "window-only-long";
+    let lens: Vec<usize> = if run.quick() { vec![40] } else { vec![40, 70] };
+    let ty = ty_v1::<f64, f64>();
+    let mut items: Vec<(String, Vec<X>)> = vec![];
+    for len in lens {
+        items.extend(structured_shapes(len, true));
+    }
+    total.merge(par_items(&items, run.threads, |(label, x), ctx| {
+        let len = x.len();
+        ctx.states += 1;
+        ctx.fam(fam).states += 1;
+        ctx.nontrivial(fam, hash_bytes(format!("{label}{len}").as_bytes()));
+        // noise of the order eps * (largest value of the history) is legitimate for the incremental statistics
+        set_abs_tol(1e-12 * 23.0);
+        for w in [9usize, 16, 17, 20, 33] {
+            if w >= len {
+                continue;
+            }
+            for mp in [Some(1), Some(w / 2), Some(w)] {
+                for &f in &valid_fns() {
+                    if matches!(f, R1::Ewm | R1::Fdiff(_)) {
+                        continue; // weights of the exponential / fractional families reach back by design of their recurrences only up to rounding; covered on short windows
+                    }
+                    let whole = match (ty.run)(f, x, w, mp, Path::Ret) {
+                        Some(Outcome::Ok(c)) => c,
+                        _ => continue,
+                    };
+                    ctx.eval(fam, hash_cells(&whole));
+                    for i in (w - 1..len).step_by(3) {
+                        let win = &x[i + 1 - w..=i];
+                        let alone = match (ty.run)(f, win, w, mp, Path::Ret) {
+                            Some(Outcome::Ok(c)) => c,
+                            _ => continue,
+                        };
+                        ctx.transitions += 1;
+                        // positions the model leaves open (skewness of a constant window, residual statistics of an exact fit, ...)
+                        let m = mc_ref::roll::expect1(f, win, w, mp);
+                        if m.any || (m.null_ok && m.val.is_some()) {
+                            continue;
+                        }
+                        let (a, b) = (&whole[i], &alone[w - 1]);
+                        let ok = if f.is_cmp() && !matches!(f, R1::Zscore | R1::Minmax) { exact_eq(a, b) } else { tol_eq(a, b) };
+                        if !ok {
+                            ctx.violation(Violation {
+                                entry: format!("window-only:{}", r1_name(f, true)),
+                                finding: None,
+                                size: 200_000 + len * 10 + w,
+                                case: json!({"family": fam, "shape": label, "len": len, "pos": i, "w": w, "mp": mp_json(mp), "window": json_word(win)}),
+                                expected: format!("as on the window alone: {}", b.show()),
+                                got: a.show(),
+                            });
+                        } else {
+                            ctx.traces += 1;
+                        }
+                    }
+                }
+            }
+        }
+        set_abs_tol(0.0);
+    }));
+}
+
 fn main() {
     let run = Run::from_args("C06");
     let a5 = alphabet5(run.seed);
@@ -525,6 +592,7 @@ fn main() {
             "prefix-maps" => maps.visit(&word, None, &mut ctx),
             "window-only-pairs" => window_only_pairs(&run, &mut ctx),
             "prefix-long" => prefix_long(&run, &mut ctx),
+            "window-only-long" => window_only_long(&run, &mut ctx),
             _ => window_only(&run, &mut ctx),
         }
         std::process::exit(finish_replay(&run, &stored, ctx));
@@ -536,6 +604,7 @@ fn main() {
     window_only(&run, &mut total);
     window_only_pairs(&run, &mut total);
     prefix_long(&run, &mut total);
+    window_only_long(&run, &mut total);
     let meta = Meta {
         rule: "(a) prefix law on every edge parent->child of the history trees (single series, null-free plain family, pairs, positive-lag shift/vshift/vdiff/vpct_change with n in 0..=len+2 and every fill): f(child)[..len-1] == f(parent) bit for bit, for every window and min_periods; by induction every cut point. (b) window-only dependence: for every window word W (|W|<=w_max) and every pre-history A (|A|<=a_max, finite values and nulls), also for the two-series family over pair words: last output of f(A++W) equals that of f(W) (exact for min/max/arg/rank, 1e-9 otherwise). Non-trivial = word with a non-null element; each edge compares the parent's memoised outputs with the child's.".into(),
         bounds: json!({
